@@ -365,6 +365,8 @@ class StubsLib(StubsBase):
         attrs = dict(dts)
         attrs.update({
             "ndarray": nd, "newaxis": None, "pi": V.PI, "fft": fft,
+            # NumPy scalars are modelled as Python numbers (or as 0-d arrays, which answer to np.ndarray)
+            "generic": ExtType("generic", lambda v: False),
             "lib": NS("numpy.lib", {"mixins": NS("numpy.lib.mixins", {"NDArrayOperatorsMixin": mixin})}),
             "prod": Stub(self.np_prod, "np.prod"),
             "asarray": Stub(self.np_asarray, "np.asarray"),
@@ -686,6 +688,14 @@ class StubsLib(StubsBase):
             def f(c, dt, casting="unsafe", copy=True, **k):
                 return A_.astype(c, a, self.to_dtype(dt), casting, copy)
             return Stub(f, "ndarray.astype")
+        if name == "item":
+            def item(c):
+                if a.ndim != 0 and not all((not is_sym(d)) and d == 1 for d in a.shape):
+                    raise PyExc("ValueError", "can only convert an array of size 1 to a Python scalar")
+                if a.backend == "dask":
+                    c.events.append(("force", "ndarray.item(dask)"))
+                return a.elem(tuple(0 for _ in a.shape))
+            return Stub(item, "ndarray.item")
         if name == "conj" or name == "conjugate":
             return Stub(lambda c: A_.conj(c, a), "ndarray.conj")
         if name == "copy":
